@@ -270,38 +270,42 @@ def cgOf (v : BitVec 32) : Option (BitVec 16 × BitVec 16) :=
   if v = -1 then some (3, 3) else if v = 0 then some (0, 3) else if v = 1 then some (1, 3)
   else if v = 2 then some (2, 3) else if v = 4 then some (2, 2) else if v = 8 then some (3, 2) else none
 
+/-- an instruction at an odd address is preceded by a pad byte 0, marked as data (both passes) -/
+def movPad (c : Ctx) : Ctx := if c.k.address &&& 1 ≠ 0 then c.writeInc 0 Generated.dlData else c
+
+/-- '#': eval_expression; failure in pass 1 leaves the flag 1 at the instruction's address, marked with the line,
+and the value 0; failure in pass 2 is an error (`none`) -/
+def movEval (c : Ctx) (o : Operand) : Option (Ctx × BitVec 32) :=
+  match evalInt c.k o with
+  | some v => some (c, v)
+  | none => if c.k.pass = 1 then some (c.write c.k.address 1 (Int.ofNat c.k.line), 0) else none
+
+/-- operand_to_cg (`memory_read(address) == 1` keeps the extension word), process_operand, the add_bin16 calls.
+`none`: "Immediate out of range". -/
+def movEmit (c : Ctx) (v : BitVec 32) (reg : Nat) : Option Ctx :=
+  let flag := (c.cell c.k.address).byte
+  let dst : BitVec 16 := BitVec.ofNat 16 reg
+  match (if flag = 1 then none else cgOf v) with
+  | some (mode, sreg) => some (c.addBin16 (0x4000 ||| (mode <<< 4) ||| (sreg <<< 8) ||| dst))
+  | none =>
+    if v.toInt < -32768 ∨ v.toInt > 65535 then none
+    else some ((c.addBin16 (0x4030 ||| dst)).addBin16 (v.setWidth 16))
+
+/-- back in assemble(): list_output of the bytes just assembled, line and counters -/
+def movFinish (c : Ctx) (start : Addr) : Ctx :=
+  let c' := if c.listing then c.listAppend (listOutput c.cell start (span start c.k.address) ++ ["\n"]) else c
+  { c' with k := { c'.k with line := c'.k.line + 1, instructionCount := c'.k.instructionCount + 1,
+                             codeCount := c'.k.codeCount + span start c'.k.address } }
+
 def movImm (c : Ctx) (o : Operand) (reg : Nat) : Res :=
   if c.k.instrSet ≠ msp430Idx ∨ reg < 4 ∨ reg > 15 then ⟨c, false⟩       -- other back ends / registers: not modelled
   else
-    let start := c.k.address
-    -- an instruction at an odd address is preceded by a pad byte 0, marked as data (both passes)
-    let c := if c.k.address &&& 1 ≠ 0 then c.writeInc 0 Generated.dlData else c
-    let ia := c.k.address
-    -- '#': eval_expression; failure in pass 1 leaves the flag 1 at the instruction's address, marked with the line
-    let ev : Option (Ctx × BitVec 32) :=
-      match evalInt c.k o with
-      | some v => some (c, v)
-      | none => if c.k.pass = 1 then some (c.write ia 1 (Int.ofNat c.k.line), 0) else none
-    match ev with
-    | none => ⟨c, false⟩
+    match movEval (movPad c) o with
+    | none => ⟨movPad c, false⟩
     | some (c1, v) =>
-      -- operand_to_cg: `memory_read(address) == 1` keeps the extension word
-      let flag := (c1.cell ia).byte
-      let cg := if flag = 1 then none else cgOf v
-      let dst : BitVec 16 := BitVec.ofNat 16 reg
-      let r : Option Ctx :=
-        match cg with
-        | some (mode, sreg) => some (c1.addBin16 (0x4000 ||| (mode <<< 4) ||| (sreg <<< 8) ||| dst))
-        | none =>
-          if v.toInt < -32768 ∨ v.toInt > 65535 then none                    -- "Immediate out of range"
-          else some ((c1.addBin16 (0x4030 ||| dst)).addBin16 (v.setWidth 16))
-      match r with
+      match movEmit c1 v reg with
       | none => ⟨c1, false⟩
-      | some c2 =>
-        -- back in assemble(): list_output, counters
-        let c3 := if c2.listing then c2.listAppend (listOutput c2.cell start (span start c2.k.address) ++ ["\n"]) else c2
-        ⟨{ c3 with k := { c3.k with line := c3.k.line + 1, instructionCount := c3.k.instructionCount + 1,
-                                    codeCount := c3.k.codeCount + span start c3.k.address } }, true⟩
+      | some c2 => ⟨movFinish c2 c.k.address, true⟩
 
 /-! ### one statement -/
 
